@@ -856,6 +856,15 @@ func vRunFan[T comparable, C any](ops vSigOps[T, C], out *vOut, cs vFanCase) {
 		})
 	}
 	fan := ops.newFan(cons)
+	// the slice belongs to the caller: it may reuse it afterwards (a scratch buffer).  Overwrite every element with a
+	// consumer that must never be invoked.
+	for i := range cons {
+		i := i
+		cons[i] = ops.mkCons([]bool{!cs.caps[i]}, func(context.Context, T) error {
+			fail("fanout-aliases-callers-slice", fmt.Sprintf("the fan-out invoked what the caller stored at index %d of its slice AFTER NewX returned", i))
+			return nil
+		})
+	}
 	capObs := ops.caps(fan)
 	for _, l := range cs.seg0 {
 		doWrite(l)
